@@ -22,7 +22,8 @@ import (
 type Source struct {
 	Prog      *load.Program
 	Var       *types.Var    // the package-level variable holding the text
-	Lit       *ast.BasicLit // its initialiser
+	Lit       *ast.BasicLit // its initialiser (the first literal when the text is a concatenation)
+	Pieces    []Piece       // the string literals the text is concatenated from, in order
 	Text      string
 	Tree      *parse.Tree
 	Trees     map[string]*parse.Tree // associated templates ({{define}})
@@ -91,16 +92,18 @@ func Extract(prog *load.Program) (*Source, error) {
 					}
 					switch info.Defs[n] {
 					case tv:
-						lit, ok := ast.Unparen(vs.Values[i]).(*ast.BasicLit)
-						if !ok || lit.Kind != token.STRING {
-							return nil, fmt.Errorf("template text %s is not initialised by a single string literal", n.Name)
+						pieces, err := flattenText(prog, info, vs.Values[i], 0)
+						if err != nil || len(pieces) == 0 {
+							return nil, fmt.Errorf("template text %s is not initialised by string literals (a literal, or a concatenation of literals and constants made of literals): %v", n.Name, err)
 						}
-						src.Lit = lit
-						s, err := strconv.Unquote(lit.Value)
-						if err != nil {
-							return nil, err
+						src.Lit = pieces[0].Lit
+						text := ""
+						for k := range pieces {
+							pieces[k].Off = len(text)
+							text += pieces[k].text
 						}
-						src.Text = s
+						src.Pieces = pieces
+						src.Text = text
 					case fv:
 						cl, ok := ast.Unparen(vs.Values[i]).(*ast.CompositeLit)
 						if !ok {
@@ -283,6 +286,99 @@ func (s *Source) FuncBody(name string) (*ast.FuncType, *ast.BlockStmt, *types.In
 	return nil, nil, nil
 }
 
+// Piece is one string literal of the template text.
+type Piece struct {
+	Lit  *ast.BasicLit
+	Off  int // offset of its text in the whole
+	text string
+}
+
+// flattenText: the literals an initialiser is concatenated from: a string literal, a + of such, or a
+// package-level constant of moq declared as one.
+func flattenText(prog *load.Program, info *types.Info, e ast.Expr, depth int) ([]Piece, error) {
+	if depth > 8 {
+		return nil, fmt.Errorf("constants nested too deeply")
+	}
+	switch x := ast.Unparen(e).(type) {
+	case *ast.BasicLit:
+		if x.Kind != token.STRING {
+			return nil, fmt.Errorf("a literal that is not a string")
+		}
+		t, err := strconv.Unquote(x.Value)
+		if err != nil {
+			return nil, err
+		}
+		return []Piece{{Lit: x, text: t}}, nil
+	case *ast.BinaryExpr:
+		if x.Op != token.ADD {
+			return nil, fmt.Errorf("operator %s", x.Op)
+		}
+		l, err := flattenText(prog, info, x.X, depth+1)
+		if err != nil {
+			return nil, err
+		}
+		r, err := flattenText(prog, info, x.Y, depth+1)
+		if err != nil {
+			return nil, err
+		}
+		return append(l, r...), nil
+	case *ast.Ident:
+		c, ok := info.ObjectOf(x).(*types.Const)
+		if !ok || !prog.IsMoqPkg(c.Pkg()) {
+			return nil, fmt.Errorf("%s is not a constant of moq", x.Name)
+		}
+		for _, mp := range prog.MoqPackages() {
+			if mp.Types != c.Pkg() {
+				continue
+			}
+			for _, f := range mp.Syntax {
+				for _, d := range f.Decls {
+					gd, ok := d.(*ast.GenDecl)
+					if !ok || gd.Tok != token.CONST {
+						continue
+					}
+					for _, sp := range gd.Specs {
+						vs := sp.(*ast.ValueSpec)
+						for i, n := range vs.Names {
+							if mp.TypesInfo.Defs[n] == types.Object(c) && i < len(vs.Values) {
+								return flattenText(prog, mp.TypesInfo, vs.Values[i], depth+1)
+							}
+						}
+					}
+				}
+			}
+		}
+		return nil, fmt.Errorf("declaration of constant %s not found", x.Name)
+	}
+	return nil, fmt.Errorf("expression %T", e)
+}
+
+func (s *Source) pieceAt(off int) Piece {
+	p := s.Pieces[0]
+	for _, q := range s.Pieces {
+		if q.Off <= off {
+			p = q
+		}
+	}
+	return p
+}
+
+// PosOf converts a byte offset in the template text to a position in the literal that holds it.
+func (s *Source) PosOf(off int) token.Pos {
+	p := s.pieceAt(off)
+	return p.Lit.Pos() + token.Pos(1+off-p.Off)
+}
+
+// OffsetOf: the offset in the template text of a position inside one of its literals.
+func (s *Source) OffsetOf(pos token.Pos) (int, bool) {
+	for _, p := range s.Pieces {
+		if pos >= p.Lit.Pos() && pos <= p.Lit.End() {
+			return p.Off + int(pos-p.Lit.Pos()) - 1, true
+		}
+	}
+	return 0, false
+}
+
 // Line converts a byte offset in the template text to a repository position.
 func (s *Source) Line(off int) string {
 	if off < 0 {
@@ -291,8 +387,9 @@ func (s *Source) Line(off int) string {
 	if off > len(s.Text) {
 		off = len(s.Text)
 	}
-	base := s.Prog.Fset.Position(s.Lit.Pos())
-	line := base.Line + strings.Count(s.Text[:off], "\n")
+	p := s.pieceAt(off)
+	base := s.Prog.Fset.Position(p.Lit.Pos())
+	line := base.Line + strings.Count(s.Text[p.Off:off], "\n")
 	name := strings.TrimPrefix(base.Filename, s.Prog.Repo+"/")
 	return fmt.Sprintf("%s:%d", name, line)
 }
